@@ -599,6 +599,15 @@ Proof.
   - cbn [fst snd]. split; [exact H|split; [reflexivity|intros g _; reflexivity]].
 Qed.
 
+Lemma drop_slot_nil_ok e l X f :
+  Inv0 e l X -> slot e f = [] -> drop_slot f (e, l) = (upd e f [], l) /\ Inv0 (upd e f []) l X.
+Proof.
+  intros H Hs. unfold drop_slot. rewrite Hs, l_drop_nil. split; [reflexivity|].
+  eapply Inv0_perm; [exact H|reflexivity|].
+  eapply perm_trans; [apply (owned_split e f)|]. rewrite Hs.
+  apply Permutation_sym. apply (owned_upd e f []).
+Qed.
+
 Lemma set_dict_ok dbg size oshapes rings e l X :
   Inv e l X ->
   let s' := set_dict temps (current dbg) size (m8 e) oshapes rings (e, l) in
@@ -607,7 +616,12 @@ Proof.
   intros (H & (HN & HC & HL) & Hsync). unfold set_dict.
   destruct (alloc_blocks_from_ok _ _ X LNew oshapes H HN) as (bs & l0 & E0 & H0). rewrite E0.
   change (v_dict_frees_old (current dbg)) with true. change (v_debug (current dbg)) with dbg.
-  change (v_dict_destroys_orig (current dbg)) with true. cbn [fst snd]. rewrite slot_upd_same.
+  change (v_dict_destroys_orig (current dbg)) with true.
+  change (v_dict_installs_first (current dbg)) with true.
+  change (v_dict_ignores_one_byte (current dbg)) with false.
+  change (v_dict_cut_discards (current dbg)) with true.
+  change (v_dict_cut_frees (current dbg)) with true.
+  cbn [fst snd andb]. rewrite slot_upd_same.
   destruct (free_slot_ok _ _ X FHasher H0) as (l1 & E1 & H1). rewrite E1.
   destruct (move_ok _ _ X LNew FHasher H1) as (E2 & H2); [discriminate|slots; reflexivity|]. rewrite E2.
   revert H2. slots. set (e2 := upd (upd (upd (upd e LNew bs) FHasher []) LNew []) FHasher bs). intros H2.
@@ -616,15 +630,33 @@ Proof.
   destruct (ensure_init_ok e2 l1 X I2) as (I3 & Hm3).
   destruct (ensure_init (e2, l1)) as [e3 l3]. cbn [fst snd] in *.
   assert (Hm3' : m8 e3 = m8 e) by (rewrite Hm3; reflexivity).
-  destruct ((size =? 0) || (quality e3 =? 0) || (quality e3 =? 1) || (size <=? 1)).
-  { cbn [fst snd]. split; [eapply Inv_scalars; [exact I3|reflexivity|reflexivity]|exact Hm3']. }
-  destruct (do_phases_ok (map PhRingInit rings) e3 l3 X I3) as (I4 & Hm4).
-  destruct (do_phases temps (map PhRingInit rings) (e3, l3)) as [e4 l4]. cbn [fst snd] in *.
+  rewrite orb_false_r.
+  destruct ((size =? 0) || (quality e3 =? 0) || (quality e3 =? 1)).
+  { (* the dictionary is ignored; the supplied hasher already belongs to the state *)
+    destruct I3 as (H3 & (HN3 & HC3 & HL3) & Hs3).
+    destruct (drop_slot_nil_ok e3 l3 X LNew H3 HN3) as (Ed & Hd). rewrite Ed. cbn [fst snd].
+    apply mkInv; [eapply Inv0_scalars; [exact Hd|reflexivity|reflexivity]|slots; auto ..|exact Hm3'];
+      try (unfold sync; slots; exact Hs3). }
+  (* the state after a possible cut of the dictionary to the window *)
+  assert (Hcut : forall c : bool,
+            let s3c := if c then free_slot FHasher (e3, l3) else (e3, l3) in
+            Inv (fst s3c) (snd s3c) X /\ m8 (fst s3c) = m8 e).
+  { intros [|]; cbv zeta; [|split; [exact I3|exact Hm3']].
+    destruct I3 as (H3 & (HN3 & HC3 & HL3) & Hs3).
+    destruct (free_slot_ok _ _ X FHasher H3) as (l3' & E3' & H3'). rewrite E3'. cbn [fst snd].
+    apply mkInv; [exact H3'|slots; auto ..|exact Hm3']; try (unfold sync; slots; exact Hs3). }
+  rewrite !andb_true_r.
+  set (cut := (2 ^ lgwin e3 - 16 <? size) && negb (isnil bs)).
+  specialize (Hcut cut). cbv zeta in Hcut.
+  destruct (if cut then free_slot FHasher (e3, l3) else (e3, l3)) as [e3c l3c] eqn:E3c.
+  cbn [fst snd] in Hcut. destruct Hcut as (I3c & Hm3c).
+  destruct (do_phases_ok (map PhRingInit rings) e3c l3c X I3c) as (I4 & Hm4).
+  destruct (do_phases temps (map PhRingInit rings) (e3c, l3c)) as [e4 l4]. cbn [fst snd] in *.
   assert (Hm4' : m8 e4 = m8 e) by congruence.
-  destruct (dbg || negb (negb (isnil bs))) eqn:Ed; [|split; [exact I4|exact Hm4']].
+  destruct (dbg || negb (negb (isnil bs) && negb cut)) eqn:Ed; [|split; [exact I4|exact Hm4']].
   destruct I4 as (H4 & (HN4 & HC4 & HL4) & Hs4).
-  destruct (negb (isnil bs)) eqn:Eb.
-  - (* a precomputed hasher was supplied: rebuild, compare, destroy the original *)
+  destruct (negb (isnil bs) && negb cut) eqn:Eb.
+  - (* a precomputed hasher was supplied and kept: rebuild, compare, destroy the original *)
     destruct (move_ok _ _ X FHasher LNew H4) as (E5 & H5); [discriminate|exact HN4|]. rewrite E5.
     destruct (hasher_setup_ok0 _ _ X H5) as (H6 & Hm6 & Hsame6).
     destruct (do_phase temps PhHasherSetup (upd (upd e4 FHasher []) LNew (slot e4 FHasher), l4)) as [e6 l6].
@@ -894,6 +926,38 @@ Proof.
   apply multi_life_ok; [|exact Hg]. exact Hl0.
 Qed.
 
+(* a job that cannot be joined: everything except that job's own chunk is returned *)
+Lemma remove_nth_none {A} (l : list A) : forall k, nth_error l k = None -> remove_nth k l = l.
+Proof.
+  induction l as [|a l IH]; intros [|k] H; cbn in *; try reflexivity; try discriminate.
+  f_equal. apply IH. exact H.
+Qed.
+
+Theorem join_failure_loses_only_own_chunk dbg sh ts k :
+  good_threads 0 ts ->
+  let l := multi_life_joinfail temps (current dbg) sh ts k in
+  faults l = [] /\ Permutation (live l) (lost_chunk temps (current dbg) sh ts k).
+Proof.
+  intros Hg. unfold multi_life_joinfail, lost_chunk.
+  change (v_join_failure_continues (current dbg)) with true.
+  change (v_stitch_same_alloc (current dbg)) with true. cbv iota.
+  destruct (run_threads_ok dbg sh ts 0 empty_ledger [] LInv_empty Hg) as (Hl1 & Hown).
+  destruct (run_threads temps (current dbg) sh 0 ts empty_ledger) as [cs l1]. cbn [fst snd] in *.
+  rewrite app_nil_r in Hl1.
+  destruct (nth_error cs k) as [c|] eqn:En.
+  - pose proof (remove_nth_perm _ _ _ En) as Hp.
+    assert (Hl2 : LInv l1 (flat_map snd (remove_nth k cs) ++ snd c)).
+    { eapply LInv_perm; [exact Hl1|].
+      eapply perm_trans; [apply (Permutation_flat_map snd Hp)|]. cbn [flat_map].
+      apply Permutation_app_comm. }
+    assert (Hown2 : Forall (fun c => Forall (fun b => binst b = fst c) (snd c)) (remove_nth k cs)).
+    { eapply Forall_perm in Hown; [|exact Hp]. inversion Hown; assumption. }
+    destruct (stitch_ok _ _ _ Hl2 Hown2) as (_ & Hf & Hpm). split; assumption.
+  - rewrite (remove_nth_none _ _ En).
+    assert (Hl2 : LInv l1 (flat_map snd cs ++ [])) by (rewrite app_nil_r; exact Hl1).
+    destruct (stitch_ok _ _ _ Hl2 Hown) as (_ & Hf & Hpm). split; assumption.
+Qed.
+
 (* ---------------------------------------------------------------- C ABI *)
 
 Theorem ffi_returns dbg custom state_size h :
@@ -1003,6 +1067,45 @@ Lemma legacy_slice_refuted :
   length (live l) = 1%nat /\ count_faults is_dropped l = 1 /\ ~ returned l.
 Proof. cbv zeta. split; [|split; [|apply not_returned]]; vm_compute; reflexivity. Qed.
 
+(* why the two newer release-site anchors are part of `version`: if the by-value hasher were
+   stored in the state only after the `dictionary ignored` return, or if a `?` inside the copy
+   loop came before the destroy call, the model leaks *)
+Definition late_install (v : version) : version :=
+  mkver (v_debug v) (v_cleanup_fields v) (v_destroy_cleans v) (v_dict_frees_old v) (v_dict_destroys_orig v)
+        (v_ffi_destroy_cleans v) (v_single_cleans v) (v_oneshot_own_alloc v) (v_oneshot_destroys v)
+        (v_writer_drop_destroys v) (v_reader_drop_destroys v) (v_copy_returns_destroy v) (v_copy_tail_destroys v)
+        (v_part_destroys v) (v_part_error_frees_chunk v) (v_stitch_same_alloc v) (v_clone_same_alloc v)
+        (v_slice_frees_input v) (v_multi_restores_input v) false (v_dict_ignores_one_byte v)
+        (v_dict_cut_discards v) (v_dict_cut_frees v) (v_copy_try_exits_destroy v) (v_join_failure_continues v).
+Definition try_before_destroy (v : version) : version :=
+  mkver (v_debug v) (v_cleanup_fields v) (v_destroy_cleans v) (v_dict_frees_old v) (v_dict_destroys_orig v)
+        (v_ffi_destroy_cleans v) (v_single_cleans v) (v_oneshot_own_alloc v) (v_oneshot_destroys v)
+        (v_writer_drop_destroys v) (v_reader_drop_destroys v) (v_copy_returns_destroy v) (v_copy_tail_destroys v)
+        (v_part_destroys v) (v_part_error_frees_chunk v) (v_stitch_same_alloc v) (v_clone_same_alloc v)
+        (v_slice_frees_input v) (v_multi_restores_input v) (v_dict_installs_first v) (v_dict_ignores_one_byte v)
+        (v_dict_cut_discards v) (v_dict_cut_frees v) false (v_join_failure_continues v).
+
+(* two jobs at quality 1 sharing a precomputed hasher: the second job ignores its dictionary *)
+Definition q1_thread : thread_spec :=
+  mkthread 1000 [OSetParam PQuality 1; OSetParam PLgwin 18] 2 []
+           [OStreamFast 2 [FpStorage 507]] true.
+Lemma late_install_refuted :
+  let sh := [(U32, 8388608); (U16, 32768)] in
+  returned (multi_life no_temps (current true) sh [q1_thread; q1_thread] empty_ledger) /\
+  let l := multi_life no_temps (late_install (current true)) sh [q1_thread; q1_thread] empty_ledger in
+  length (live l) = 2%nat /\ count_faults is_dropped l = 2.
+Proof. cbv zeta. split; [apply returnedb_spec|split]; vm_compute; reflexivity. Qed.
+
+Lemma try_before_destroy_refuted :
+  returned (copy_life no_temps (current true) [] [] small_stream XWriteErrorReadPending) /\
+  ~ returned (copy_life no_temps (try_before_destroy (current true)) [] [] small_stream XWriteErrorReadPending) /\
+  returned (copy_life no_temps (try_before_destroy (current true)) [] [] small_stream XWriteError).
+Proof.
+  split; [apply returnedb_spec; vm_compute; reflexivity|split].
+  - apply not_returned. vm_compute. reflexivity.
+  - apply returnedb_spec. vm_compute. reflexivity.
+Qed.
+
 (* KNOWN CLASS (not repaired): BrotliEncoderStateStruct has no Drop impl; an owner that lets a
    raw state go without BrotliEncoderDestroyInstance leaks every buffer it holds *)
 Definition KnownClass (destroyed_by_owner : bool) : Prop := destroyed_by_owner = false.
@@ -1012,8 +1115,8 @@ Lemma raw_drop_known_witness :
   ~ returned (instance_life no_temps (current true) 0 small_stream false empty_ledger).
 Proof. split; [reflexivity|apply not_returned; vm_compute; reflexivity]. Qed.
 
-(* a worker whose join fails: CompressMulti returns at once and the chunks of the workers
-   that were not joined yet are never freed (they sit in values the caller cannot open) *)
+(* a worker whose join fails takes its own chunk with it (the code before 176a6ae also left the
+   later workers unjoined); see join_failure_loses_only_own_chunk for what is returned *)
 Definition tiny_thread : thread_spec :=
   mkthread 1000 [OSetParam PQuality 5; OSetParam PLgwin 18] 900 [900]
            [OStream [PhSizeHint 900; PhRingInit (262144 + 65536); PhStorage 2327; PhCommands 451 241; PhHasherSetup]] true.
